@@ -58,7 +58,7 @@ def rpc_entries(F):
 def run(F, R, tier, cfg):
     ents = rpc_entries(F)
     R.extra["entries"] = ents
-    PN.check_entries(F, R, "C18", ents, cfg)
+    PN.check_entries(F, R, "C18", ents, cfg, underflow_armed=r"rpc|Rpc")   # dev: subtraction underflow in the RPC conversions is a panic site
     validate_rules(F, R)
     algorithm_table(F, R)
     chain_rules(F, R)
